@@ -181,6 +181,9 @@ class MergeConsecutiveOp(BaseOp):
 
         """
         remove_df = pd.DataFrame(remove_groups, columns=["remove"])
+        if pd.api.types.is_integer_dtype(df_new["duration"]):
+            # The merged duration is in general not an integer
+            df_new["duration"] = df_new["duration"].astype(float)
         max_groups = max(remove_groups)
         for index in range(max_groups):
             df_group = df_new.loc[remove_df["remove"]
